@@ -317,7 +317,11 @@ func junkLine(r *rand.Rand, safe bool) string {
 			l = lookAlikes[r.Intn(len(lookAlikes))]
 		case 1:
 			n := []int{16382, 16383, 16384, 16385, 16386, 32768, 40000}[r.Intn(7)]
-			l = strings.Repeat("x", n-1) // + EOL
+			l = variedText(r, n-1) // + EOL
+			if !safe && r.Intn(3) == 0 {
+				// a long junk line whose text right after a buffer's worth of bytes reads like the start of a dump
+				l = variedText(r, 16384*(1+r.Intn(2))) + []string{"goroutine 7 [running]:", "==================", "goroutine 1 [chan receive]:"}[r.Intn(3)]
+			}
 		case 2:
 			b := make([]byte, 1+r.Intn(30))
 			for i := range b {
@@ -345,6 +349,18 @@ func junkLine(r *rand.Rand, safe bool) string {
 	}
 }
 
+// variedText: n bytes of non-uniform printable text without line ends (so that a misplaced copy is visible)
+func variedText(r *rand.Rand, n int) string {
+	var b strings.Builder
+	b.Grow(n + 16)
+	k := r.Intn(1000)
+	for b.Len() < n {
+		fmt.Fprintf(&b, "w%d-", k)
+		k++
+	}
+	return b.String()[:n]
+}
+
 // isHeaderLike: conservative test "could be taken for a goroutine header"
 func isHeaderLike(l string) bool {
 	t := strings.TrimLeft(l, " \t")
@@ -354,6 +370,12 @@ func isHeaderLike(l string) bool {
 func genJunk(r *rand.Rand, nlines int, safe bool, crlf bool) string {
 	var b strings.Builder
 	for i := 0; i < nlines; i++ {
+		if !safe && r.Intn(25) == 0 {
+			// a run of separator lines that no race report follows
+			for k := 2 + r.Intn(3); k > 0; k-- {
+				b.WriteString("==================\n")
+			}
+		}
 		b.WriteString(junkLine(r, safe))
 		if crlf && r.Intn(2) == 0 {
 			b.WriteString("\r\n")
@@ -371,7 +393,14 @@ func mutate(r *rand.Rand, s string) string {
 	nm := 1 + r.Intn(3)
 	for k := 0; k < nm && len(lines) > 0; k++ {
 		i := r.Intn(len(lines))
-		switch r.Intn(15) {
+		switch r.Intn(16) {
+		case 15: // number surgery: a number of a header / address / line replaced by one that does not fit
+			lines[i] = reNumber.ReplaceAllStringFunc(lines[i], func(m string) string {
+				if r.Intn(2) == 0 {
+					return m
+				}
+				return []string{"99999999999999999999", "9223372036854775808", "0x10000000000000000", "18446744073709551616", "1000000000000000000", "0xffffffffffffffff"}[r.Intn(6)]
+			})
 		case 0: // delete
 			lines = append(lines[:i], lines[i+1:]...)
 		case 1: // duplicate
@@ -464,6 +493,7 @@ var lineKinds = []string{
 	"main.f(0x1}})", "main.f({0x1, 0x2}}}, 0x3)", "  ", "created by net/http.", "net/http.(*conn)",
 }
 
+var reNumber = regexp.MustCompile(`0x[0-9a-f]+|\d+`)
 var reLaterHeader = regexp.MustCompile(`(?m)^[ \t]*goroutine \d+ \[[^\n]*\]:`)
 
 // cutAfterLaterHeader cuts a dump of several goroutines right after the header
@@ -495,6 +525,18 @@ func opScan(r *rand.Rand, n int, tier, mix string) {
 				maxf = 150
 			}
 			d := g.dump(ng, maxf)
+			if r.Intn(15) == 0 {
+				// a frame line longer than the 16 KiB read buffer: thousands of (varied) argument words
+				gi := r.Intn(len(d))
+				if len(d[gi].Frames) > 0 && !d[gi].Unavailable {
+					fi := r.Intn(len(d[gi].Frames))
+					var as []dArg
+					for k := 0; k < 2500+r.Intn(3000); k++ {
+						as = append(as, dArg{V: uint64(0xc000000000 + k*8)})
+					}
+					d[gi].Frames[fi].Args, d[gi].Frames[fi].ArgsElided = as, false
+				}
+			}
 			v := g.variant()
 			if strings.HasPrefix(v.FileIndent, " ") {
 				// a file starting with a space is ambiguous under space indentation: none generated
@@ -564,7 +606,7 @@ func opScan(r *rand.Rand, n int, tier, mix string) {
 					if frameLike {
 						b.WriteString("main.cleanup(0x1)\n\t/home/u/proj/cleanup.go:9 +0x1d\n")
 					}
-					b.WriteString([]string{"...", "... output truncated ...", "exit status 2", "...retrying in 5s...", "PASS", strings.Repeat("y", 20000)}[r.Intn(6)] + "\n")
+					b.WriteString([]string{"...", "... output truncated ...", "exit status 2", "...retrying in 5s...", "PASS", variedText(r, 20000)}[r.Intn(6)] + "\n")
 					b.WriteString(genJunk(r, r.Intn(3), true, crlf))
 					continue
 				} else {
@@ -646,10 +688,10 @@ func opScan(r *rand.Rand, n int, tier, mix string) {
 				txt = printDump(g.dump(1+r.Intn(2), 3), g.variant(), true) + genJunk(r, 2, false, false)
 			case 1:
 				n := []int{16382, 16383, 16384, 16385, 16386, 32767, 32768, 32769, 49152}[r.Intn(9)]
-				txt = strings.Repeat("a", n-1) + "\n" + printDump(g.dump(1, 2), dVariant{FileIndent: "\t"}, true) + "z"
+				txt = variedText(r, n-1) + "\n" + printDump(g.dump(1, 2), dVariant{FileIndent: "\t"}, true) + "z"
 				if r.Intn(3) == 0 {
 					// ... and an unterminated last line of exactly k buffers (or one byte off)
-					txt = txt[:len(txt)-1] + strings.Repeat("z", (1+r.Intn(2))*16384+[]int{0, 0, -1, 1}[r.Intn(4)])
+					txt = txt[:len(txt)-1] + variedText(r, (1+r.Intn(2))*16384+[]int{0, 0, -1, 1}[r.Intn(4)])
 				}
 			case 2:
 				// a dump line longer than the buffer: many arguments
